@@ -52,7 +52,7 @@ class Gen:
             ch += ["arglen", "argget", "argget", "argset"]
         if d > 0:
             ch += ["fn", "fn", "call", "call", "call", "add", "lt", "seq", "logassign", "incdec", "and", "or", "nullish", "cond", "sub",
-                   "objlit", "objlit", "mget", "mget", "passign", "mset", "mset", "maddassign", "mincdec", "mcall", "mcall", "new"]
+                   "objlit", "objlit", "mget", "mget", "passign", "mset", "mset", "maddassign", "mincdec", "mcall", "mcall", "new", "new", "classe"]
             if fs.get("thisok"):
                 ch += ["this", "this"]
         c = r.choice(ch)
@@ -60,10 +60,12 @@ class Gen:
             return self.objlit(d - 1, fs)
         if c == "this":
             return N("this")
+        if c == "classe":
+            return self.klass(d - 1, fs, None)
         if c == "new":
-            fn_names = fs.get("fnames") or []
+            fn_names = (fs.get("fnames") or []) + (fs.get("classes") or []) * 2
             q = r.random()
-            callee = N("ref", x=r.choice(fn_names)) if (fn_names and q < 0.5) else self.fn(d - 1, fs) if q < 0.8 else N("ref", x=self.anyname(fs))
+            callee = N("ref", x=r.choice(fn_names)) if (fn_names and q < 0.55) else self.fn(d - 1, fs) if q < 0.7 else self.klass(d - 1, fs, None) if q < 0.85 else N("ref", x=self.anyname(fs))
             return N("new", k=[callee] + [self.expr(d - 1, fs) for _ in range(r.randint(0, 2))])
         if c in ("mset", "maddassign", "mincdec", "mcall"):
             q = r.random()
@@ -125,6 +127,55 @@ class Gen:
         if c in ("add", "lt"):
             return N(c, k=[self.expr(d - 1, fs), self.expr(d - 1, fs)])
         return N("seq", k=[self.expr(d - 1, fs), self.expr(d - 1, fs)])
+
+    def klass(self, d, fs, decl_name, force_ext=None):
+        """a class declaration (decl_name) or expression: optional heritage, constructor, members on the keys a / b (x / y)"""
+        r = self.r
+        d = max(d, 0)
+        name = decl_name or (r.choice(FUNS) if r.random() < 0.4 else "")
+        known = list(fs.get("classes") or [])
+        ext = []
+        q = r.random()
+        if force_ext:
+            ext = [N("ref", x=force_ext)]
+        elif q < 0.45 and known:
+            ext = [N("ref", x=r.choice(known))]
+        elif q < 0.55 and d > 0:
+            ext = [self.klass(d - 1, fs, None)]
+        elif q < 0.6:
+            ext = [N("ref", x=self.anyname(fs))]
+        derived = bool(ext)
+        outer = fs["declared"] | fs.get("outer", set()) | ({name} if name else set())
+
+        def body_fs(params):
+            return dict(declared=set(params), params=list(params), loopvars=set(), incatch=False, top=True, outer=outer, argsok=True, thisok=True,
+                        strict=True, revar=set(params), inited=list(fs.get("inited") or []) + list(params) + ([name] if name else []),
+                        fnames=list(fs.get("fnames") or []), classes=known, ownnames=list(fs.get("ownnames") or []) + ([name] if name else []))
+
+        def mkfn(params, body):
+            return N("fn", x="", kind="func", p=list(params), d=[N("none") for _ in params], pp=[N("none") for _ in params], s=0, k=body)
+        ctor = []
+        if r.random() < 0.7:
+            params = r.sample(PARAMS, r.randint(0, 2))
+            bfs = body_fs(params)
+            body = self.stmts(d, bfs, top=True, maxn=3)
+            if derived and r.random() < 0.8:
+                sup = N("expr", k=[N("supercall", spread=0, k=[self.expr(max(d - 1, 0), bfs) for _ in range(r.randint(0, 2))])])
+                body.insert(0 if r.random() < 0.7 else r.randint(0, len(body)), sup)
+                if r.random() < 0.15:
+                    body.append(sup)
+            ctor = [mkfn(params, body)]
+        members = []
+        for _ in range(r.randint(0, 3)):
+            kind = r.choice(["m", "m", "get", "set"])
+            params = ["p"] if kind == "set" else r.sample(PARAMS, r.randint(0, 1)) if kind == "m" else []
+            bfs = body_fs(params)
+            if r.random() < 0.6:
+                body = [N("return", k=[N("log", k=[self.expr(d, bfs)])])]
+            else:
+                body = self.stmts(d, bfs, top=True, maxn=2)
+            members.append(N("member", x=r.choice(["a", "b", "a", "b", "x"]), kind=kind, st=1 if r.random() < 0.3 else 0, k=[mkfn(params, body)]))
+        return N("classd" if decl_name else "classe", x=name, ext=ext, ctor=ctor, k=members)
 
     def objlit(self, d, fs):
         r = self.r
@@ -238,7 +289,29 @@ class Gen:
                 if r.random() < 0.15:       # a second declaration of the same function name: the last one wins
                     out.append(self.fn(d - 1, fs, decl_name=nm))
         for _ in range(r.randint(1, maxn)):
-            out.append(self.stmt(d, fs, blocktop=True))
+            st = self.stmt(d, fs, blocktop=True)
+            out.append(st)
+            if st["t"] == "classd":
+                sts = [st]
+                if r.random() < 0.6:
+                    # a class derived from it, declared right after
+                    n2 = self.fresh(fs, FUNS + VARS)
+                    if n2 is not None:
+                        fs["declared"].add(n2)
+                        st2 = self.klass(max(d - 1, 0), fs, n2, force_ext=st["x"])
+                        fs.setdefault("inited", []).append(n2)
+                        fs["classes"] = list(fs.get("classes") or []) + [n2]
+                        out.append(st2)
+                        sts.append(st2)
+                # use the classes: construct them, read / call / write members of the instance and of the constructor
+                for _ in range(r.randint(1, 4)):
+                    st = r.choice(sts)
+                    inst = N("new", k=[N("ref", x=st["x"])] + [self.expr(max(d - 1, 0), fs) for _ in range(r.randint(0, 2))])
+                    key = r.choice(["a", "b", "a", "b", "x"])
+                    use = r.choice([N("log", k=[inst]), N("log", k=[N("mget", x=key, k=[inst])]), N("log", k=[N("mcall", x=key, k=[inst, N("num", n=1)])]),
+                                    N("log", k=[N("mcall", x=key, k=[N("ref", x=st["x"])])]), N("mset", x=key, k=[inst, N("num", n=2)]),
+                                    N("log", k=[N("mget", x=key, k=[N("ref", x=st["x"])])]), N("call", k=[N("ref", x=st["x"])])])
+                    out.append(N("try", x="e", cp=N("none"), k=[N("block", k=[N("expr", k=[use])]), N("block", k=[N("expr", k=[N("log", k=[N("ref", x="e")])])])]))
         if top and r.random() < 0.2:
             r.shuffle(out)
         return out
@@ -275,6 +348,14 @@ class Gen:
             kind = r.choice(["var", "let", "let", "const"])
             if kind != "var" and not blocktop:
                 kind = "var"
+            if d > 0 and r.random() < 0.12:
+                cn = self.fresh(fs, FUNS)
+                if cn is not None:
+                    fs["declared"].add(cn)
+                    node = self.klass(d - 1, fs, cn)
+                    fs.setdefault("inited", []).append(cn)
+                    fs["classes"] = list(fs.get("classes") or []) + [cn]
+                    return node
             if d > 0 and r.random() < 0.25:
                 n1, n2 = self.fresh(fs, VARS + FUNS), None
                 if n1 is not None:
@@ -389,7 +470,7 @@ class Gen:
 
 def guard(stmt):
     """try { stmt } catch (e) { LOG(e) }: an exception does not end the program (declarations are not wrapped: they would become block-scoped)"""
-    if stmt["t"] in ("var", "let", "const", "fdecl", "return", "varp", "letp", "constp"):
+    if stmt["t"] in ("var", "let", "const", "fdecl", "return", "varp", "letp", "constp", "classd"):
         return stmt
     return N("try", x="e", cp=N("none"), k=[N("block", k=[stmt]), N("block", k=[N("expr", k=[N("log", k=[N("ref", x="e")])])])])
 
@@ -406,6 +487,94 @@ def random_program(pid, rnd, maxd=3):
         if rnd.random() < 0.6:
             body.append(N("try", x="e", cp=N("none"), k=[N("block", k=[N("expr", k=[N("log", k=[N("call", k=[N("ref", x=nm)])])])]),
                                          N("block", k=[N("expr", k=[N("log", k=[N("ref", x="e")])])])]))
+    return dict(id=pid, strict=pstrict, body=body)
+
+
+def class_program(pid, rnd):
+    """a small program about one class hierarchy: base class, derived class with one of the constructor shapes the specification
+    distinguishes, uses of instances and constructors (each in its own try / catch that logs the exception)"""
+    g = Gen(rnd, 2)
+    r = rnd
+    pstrict = 1 if r.random() < 0.3 else 0
+    fs = dict(declared={"g", "h", "w"}, params=[], loopvars=set(), incatch=False, top=True, inited=["g", "h", "w"], fnames=[], strict=bool(pstrict),
+              classes=["g", "h"])
+
+    def mkfn(params, body):
+        return N("fn", x="", kind="func", p=list(params), d=[N("none") for _ in params], pp=[N("none") for _ in params], s=0, k=body)
+
+    def bfs(params):
+        return dict(declared=set(params), params=list(params), loopvars=set(), incatch=False, top=True, outer={"g", "h", "w"}, argsok=True, thisok=True,
+                    strict=True, revar=set(params), inited=["g", "h", "w"] + list(params), fnames=[], classes=["g", "h"], ownnames=[])
+
+    def small(params):
+        f = bfs(params)
+        return r.choice([N("this"), N("mget", x=r.choice(["a", "b"]), k=[N("this")]), N("num", n=r.randint(0, 3)), N("ref", x=params[0]) if params else N("num", n=1),
+                         g.expr(1, f), N("arglen"), N("mset", x=r.choice(["a", "b"]), k=[N("this"), N("num", n=r.randint(1, 3))])])
+
+    def members():
+        ms = []
+        for _ in range(r.randint(0, 3)):
+            kind = r.choice(["m", "m", "get", "set"])
+            params = ["p"] if kind == "set" else (["p"] if r.random() < 0.4 else []) if kind == "m" else []
+            ms.append(N("member", x=r.choice(["a", "b"]), kind=kind, st=1 if r.random() < 0.3 else 0,
+                        k=[mkfn(params, [N("return", k=[N("log", k=[small(params)])])])]))
+        return ms
+
+    def logst(e):
+        return N("expr", k=[N("log", k=[e])])
+    # base class
+    bparams = r.sample(PARAMS, r.randint(0, 1))
+    bbody = [N("expr", k=[N("mset", x="a", k=[N("this"), small(bparams)])])] if r.random() < 0.7 else []
+    bret = r.random()
+    if bret < 0.15:
+        bbody.append(N("return", k=[N("objlit", k=[N("prop", x="b", kind="data", k=[N("num", n=3)])])]))
+    elif bret < 0.25:
+        bbody.append(N("return", k=[N("num", n=1)]))
+    base = N("classd", x="g", ext=[], ctor=[mkfn(bparams, bbody)] if r.random() < 0.8 else [], k=members())
+    # derived class: constructor shapes
+    sup = N("expr", k=[N("supercall", spread=0, k=[small([]) for _ in range(r.randint(0, 2))])])
+    shape = r.choice(["none", "first", "first", "missing", "late", "double", "arrow", "retobj", "retprim", "cond", "thisbefore"])
+    dparams = r.sample(PARAMS, r.randint(0, 1))
+    use_this = logst(N("mget", x="a", k=[N("this")]))
+    if shape == "none":
+        dctor = []
+    elif shape == "first":
+        dctor = [mkfn(dparams, [sup, use_this])]
+    elif shape == "missing":
+        dctor = [mkfn(dparams, [logst(N("num", n=1))])]
+    elif shape == "late":
+        dctor = [mkfn(dparams, [logst(N("num", n=1)), sup, use_this])]
+    elif shape == "double":
+        dctor = [mkfn(dparams, [sup, use_this, sup, logst(N("num", n=2))])]
+    elif shape == "arrow":
+        arrow = N("fn", x="", kind="arrow", p=[], d=[], pp=[], s=0, k=[N("return", k=[sup["k"][0]])])
+        dctor = [mkfn(dparams, [N("expr", k=[N("call", k=[arrow])]), use_this])]
+    elif shape == "retobj":
+        dctor = [mkfn(dparams, ([sup] if r.random() < 0.5 else []) + [N("return", k=[N("objlit", k=[N("prop", x="a", kind="data", k=[N("num", n=2)])])])])]
+    elif shape == "retprim":
+        dctor = [mkfn(dparams, ([sup] if r.random() < 0.7 else []) + [N("return", k=[N("num", n=3)])])]
+    elif shape == "cond":
+        dctor = [mkfn(dparams, [N("if", k=[small(dparams), N("block", k=[sup])]), use_this])]
+    else:
+        dctor = [mkfn(dparams, [use_this, sup])]
+    derived = N("classd", x="h", ext=[N("ref", x="g")], ctor=dctor, k=members())
+    body = [base, derived]
+    if r.random() < 0.3:
+        body.append(N("classd", x="w", ext=[N("ref", x="h")], ctor=[] if r.random() < 0.5 else [mkfn([], [sup, use_this])], k=members()))
+
+    def tr(e):
+        return N("try", x="e", cp=N("none"), k=[N("block", k=[N("expr", k=[e])]), N("block", k=[N("expr", k=[N("log", k=[N("ref", x="e")])])])])
+    names = [c["x"] for c in body]
+    for _ in range(r.randint(2, 6)):
+        c = r.choice(names)
+        inst = N("new", k=[N("ref", x=c)] + [N("num", n=r.randint(1, 3)) for _ in range(r.randint(0, 2))])
+        key = r.choice(["a", "b"])
+        body.append(tr(r.choice([N("log", k=[inst]), N("log", k=[N("mget", x=key, k=[inst])]), N("log", k=[N("mcall", x=key, k=[inst, N("num", n=1)])]),
+                              N("log", k=[N("mcall", x=key, k=[N("ref", x=c)])]), N("log", k=[N("mset", x=key, k=[inst, N("num", n=2)])]),
+                              N("log", k=[N("mget", x=key, k=[N("ref", x=c)])]), N("call", k=[N("ref", x=c)]),
+                              N("log", k=[N("typeof", x=c)]), N("assign", x=c, k=[N("num", n=0)])])))
+    if r.random() < 0.3:      # the class binding is in its temporal dead zone before the declaration
+        body.insert(0, tr(N("log", k=[N("new", k=[N("ref", x="g")])])))
     return dict(id=pid, strict=pstrict, body=body)
 
 
@@ -467,6 +636,10 @@ def pe(e, o):
     if t == "mincdec":
         sym = "++" if e["n"] == 1 else "--"
         return "(%s(%s).%s)" % (sym, pe(e["k"][0], o), e["x"]) if e["op"] == "pre" else "((%s).%s%s)" % (pe(e["k"][0], o), e["x"], sym)
+    if t == "classe":
+        return "(%s)" % pclass(e, o, 0)
+    if t == "supercall":
+        return "super(%s)" % ", ".join(pe(a, o) for a in e["k"])
     if t == "new":
         return "new (%s)(%s)" % (pe(e["k"][0], o), ", ".join(pe(a, o) for a in e["k"][1:]))
     if t == "mcall":
@@ -509,6 +682,16 @@ def pe(e, o):
     raise AssertionError(t)
 
 
+def pclass(c, o, ind):
+    out = "class %s%s{" % (c["x"] + " " if c["x"] else "", "extends (%s) " % pe(c["ext"][0], o) if c["ext"] else "")
+    if c["ctor"]:
+        out += "\n  constructor(%s) {%s}" % (params(c["ctor"][0], o), fbody(c["ctor"][0], o, ind))
+    for mb in c["k"]:
+        pre = ("static " if mb["st"] else "") + ({"m": "", "get": "get ", "set": "set "}[mb["kind"]])
+        out += "\n  %s%s(%s) {%s}" % (pre, mb["x"], params(mb["k"][0], o), fbody(mb["k"][0], o, ind))
+    return out + "\n}"
+
+
 def ppat(pat, o):
     if pat["t"] == "opat":
         return "{%s}" % ", ".join("%s: %s%s" % (el["key"], el["x"], (" = " + pe(el["k"][0], o)) if el["k"] else "") for el in pat["k"])
@@ -545,6 +728,8 @@ def ps(stmts, o, ind):
             out.append(p + ("K(%s);" if o.get("exprpos") else "%s;") % pe(s["k"][0], o))
         elif t in ("var", "let", "const"):
             out.append(p + "%s %s%s;" % (t, s["x"], (" = " + pe(s["k"][0], o)) if s["k"] else ""))
+        elif t == "classd":
+            out.append(p + pclass(s, o, ind))
         elif t == "with":
             out.append(p + "with (%s) {\n%s\n%s}" % (pe(s["k"][0], o), ps(s["k"][1]["k"], o, ind + 1), p))
         elif t in ("varp", "letp", "constp"):
